@@ -7,6 +7,36 @@ ALL = ["C%02d" % i for i in range(1, 21)]
 
 # id -> dict(text, note, technique, design_ref)
 CHECKS = {
+ "C04": dict(
+  text="Resource monitor over isolated worker processes: ~32 k (quick) / 2 M (thorough) structure-aware hostile mutants of the whole testdata corpus (plus crafted cross-box layouts) are pushed through every decode path/flag/mode, Info at all levels and both encoders; recovered panics, worker deaths, per-operation CPU (RUSAGE) and bytes allocated (runtime/metrics) are the observations. Held = none of them on the executions listed in evidence.",
+  note="Bounds cpu <= 2 s + 20 us/byte and alloc <= 8 MiB + 1 KiB/byte are deliberately loose constants (max observed ratio is in evidence); inputs <= 256 KiB; quadratic cost in nesting depth is a recorded known finding.",
+  technique="runtime monitor: fuzz-style hostile workload in sandboxed workers with panic/CPU/allocation oracles",
+  design_ref="DESIGN.md §3 C04"),
+ "C05": dict(
+  text="History monitor: 30 k (quick) / 1.5 M (thorough) generated API histories (AddFullSample/AddSample/AddSampleInterval..., single and multi-track, optimise on/off, both encoders, extra boxes) with uniquely stamped payloads are encoded, decoded by both paths and read back with GetFullSamples, and independently expanded from the bytes by ref/frag; every sample field is compared with the harness' own ground-truth model.",
+  note="Trusts the harness model of decode-time accumulation and ref/frag's reading of ISO/IEC 14496-12 8.8; mixed full/metadata-only fragments are outside the documented API and not generated.",
+  technique="runtime monitor: recorded API histories with unique payload stamps checked against a reference model and an independent byte-level reader",
+  design_ref="DESIGN.md §3 C05"),
+ "C12": dict(
+  text="Layout monitor: 5 k (quick) / 250 k (thorough) generated fragmented files (styp/sidx/mfra/emsg layouts x decode flags) with ground-truth byte positions; oracles: every moof/mdat in exactly one segment/fragment with true StartPos (strong boundary form for single-mechanism layouts), byte-identical re-encode in segment mode, and sidx tiling after UpdateSidx / the add-sidx binary read back from bytes by ref/frag.",
+  note="Mixed delimiter layouts get only the weak grouping form (the statement does not say how mechanisms combine); durations/EPT from the harness model.",
+  technique="runtime monitor: generated layouts with known byte positions, invariant oracles over decoded partition and over sidx parsed from output bytes",
+  design_ref="DESIGN.md §3 C12"),
+ "C13": dict(
+  text="Exhaustive + random differential monitor: every byte string over {00,01,02,03,04,5A} up to length 8 (quick) / 9 (thorough) under 7 write chunkings through EBSPWriter/EBSPReader, plus 200 k / 10 M random width/value/ue/se sequences through all writer->reader pairs, compared with the independent escaper/bit model (ref/bitw) including reader position counters.",
+  note="Trusts ref/bitw (ISO/IEC 14496-10 7.4.1, 9.1); widths <= 32 bits, ue <= 2^32-2.",
+  technique="runtime monitor: exhaustive small-alphabet enumeration and random sequences against a reference bit/escape model",
+  design_ref="DESIGN.md §3 C13"),
+ "C17": dict(
+  text="Round-trip monitor: 150 k (quick) / 10 M (thorough) SEI message lists through WriteSEIMessages -> independent framing model (ref/sei) -> ExtractSEIData and avc/hevc ParseSEINalu, plus the complete flag lattice of the typed messages (Decode(Payload(x)) == x, Size == len(Payload)) and pass-through messages.",
+  note="Trusts ref/sei framing and bit layouts; empty message lists are outside the domain (an SEI RBSP has at least one message).",
+  technique="runtime monitor: generated message lists and typed-value lattice against an independent SEI framing model",
+  design_ref="DESIGN.md §3 C17"),
+ "C19": dict(
+  text="History monitor: 40 k (quick) / 400 k (thorough) API histories (CreateEmptyInit, AddEmptyTrack x media types x languages, Set*Descriptor with parameter sets from an independent SPS serializer and real streams); invariants checked on the live structure, on the encoded bytes (independent walker/readers), on both decoded trees and by a fragment write/read-back per track.",
+  note="Trusts ref/spsdim (dimensions by the standards' cropping formulas) and the byte-level readers; documented panics for unsupported media types are noted, not flagged.",
+  technique="runtime monitor: generated API histories with invariant oracles on live objects, encoded bytes and decoded trees",
+  design_ref="DESIGN.md §3 C19"),
  "C18": dict(
   text="Complete enumeration of the finite configuration domain executed against the real encoder/decoder, compared with an independent bit-layout model; quick enumerates the grid and boundary explicit frequencies, thorough all 2^24 explicit values per frequency field and all 12.6 M ADTS headers.",
   note="Trusts ref/bitw layouts (ISO/IEC 14496-3 Table 1.15, 13818-7 6.2) and Go's == on the decoded structs; canonical SBR/PS flags only.",
